@@ -32,6 +32,10 @@ Definition show_reply (buf : bytes) (user : list prop) (sel : N) : text :=
          | OwnNone => s2t "none"
          | OwnErr => s2t "ERR"
          | OwnOk t c => s2t "t=x" ++ hex t ++ s2t " c=" ++ match c with Some c => s2t "x" ++ hex c | None => s2t "-" end
+              ++ s2t " p=" ++
+              let r := owned_publication t c user in
+              show_sres (enc_publish 4096 {| pq_topic := rp_topic r; pq_pid := None; pq_props := rp_props r;
+                                             pq_retain := false; pq_qos := Q0; pq_dup := false; pq_payload := [114] |})
          end
   | _ => s2t "NOTPUB"
   end.
